@@ -5,6 +5,10 @@
 //        (w) or in the flush that follows (s) - writer B (severity sevB) must block before entering;
 //        <rep> > 1: filler records bring the number of records the sink has seen since the process started to
 //        <rep> modulo 65536 first (the lock has a history; counters inside it wrap around)
+//   mt turnseq <o|e> <rounds: parker,intruder pairs "01.10.21"> <w|s> <build>
+//        a sequence of turnstiles among three long-lived threads
+//   mt chain <o|e> <thread ids "0120"> <w|s> <build>
+//        turnstiles without a gap: the blocked thread of one round is the parked one of the next
 //   mt stress <o|e> <threads> <records> <sevmode> <seed> <build>
 //        sevmode 0..5: every record at that severity; 6: (5t+k) mod 6; 7: thread 0 fatal, others k mod 5;
 //        8: info, and every second record is logged by a callable operand of the following statement
@@ -48,6 +52,8 @@ using LogErr = nl::logger<Record, RawFmt, nl::sink::StdErrThreaded, nl::filter::
 // by byte to a pending area through a plain (racy) index and yield in between to widen race
 // windows; sync() moves the pending bytes to the device area and then clears the pending area, the
 // way a file buffer does.  `inside` counts the threads currently in any of the three.
+static thread_local int g_thread_tag = -2;
+
 class RacyBuf : public std::streambuf
 {
 public:
@@ -60,6 +66,8 @@ public:
     std::atomic<int> park_mode{ 0 }; // 0 none, 1 first write, 2 first sync
     std::atomic<bool> parked{ false };
     std::atomic<bool> release{ false };
+    std::atomic<int> park_tid{ -1 };     // -1: whoever comes first parks; otherwise only the thread with this tag
+    std::atomic<int> park_gen{ 0 }, release_gen{ 0 };
     std::atomic<int> entries{ 0 };
     std::atomic<int> entries_after_park{ 0 };
     unsigned yield_every = 0;
@@ -83,10 +91,15 @@ public:
     {
         --inside;
     }
+    bool may_park() const
+    {
+        return park_tid.load() < 0 || park_tid.load() == g_thread_tag;
+    }
     void park()
     {
+        int g = ++park_gen;
         parked = true;
-        while (!release)
+        while (!release && release_gen.load() < g)
             std::this_thread::sleep_for(std::chrono::milliseconds(1));
     }
     void put(char c)
@@ -110,7 +123,7 @@ public:
                 std::this_thread::yield();
         }
         pos = p;
-        if (park_mode == 2 && !parked.exchange(true))
+        if (park_mode == 2 && may_park() && !parked.exchange(true))
             park();
         ppos = 0;
     }
@@ -123,7 +136,7 @@ protected:
         for (std::streamsize i = 0; i < n; i++)
         {
             put(s[i]);
-            if (first && park_mode == 1 && !parked.exchange(true))
+            if (first && park_mode == 1 && may_park() && !parked.exchange(true))
                 park();
             first = false;
         }
@@ -386,6 +399,152 @@ static std::string handle(const std::vector<std::string>& f)
         b.join();
         result = std::string("parked=") + (a_parked ? "1" : "0") + " blocked=" + (entered ? "0" : "1") +
                  " concurrent=" + (buf.max_inside.load() > 1 ? "1" : "0");
+    }
+    else if (f.at(0) == "chain")
+    {
+        // a chain of turnstiles without a gap: while thread s0 is parked inside the stream buffer thread s1 arrives and
+        // must block; s0 is let go and s1 - now inside - is parked in its turn; s2 arrives and must block; ... so every
+        // thread enters the sink while somebody is inside and leaves it while somebody else is waiting
+        std::string seq = f.at(2);
+        int park_mode = f.at(3) == "s" ? 2 : 1;
+        std::atomic<int> mail[3];
+        std::atomic<bool> quit{ false };
+        for (auto& m : mail)
+            m = -1;
+        std::vector<std::thread> ts;
+        for (int t = 0; t < 3; t++)
+            ts.emplace_back([&, t] {
+                g_thread_tag = t;
+                int k = 0;
+                while (!quit)
+                {
+                    int sev = mail[t].load();
+                    if (sev < 0)
+                    {
+                        std::this_thread::sleep_for(std::chrono::microseconds(200));
+                        continue;
+                    }
+                    log(sev, record_text(t, k++, sev));
+                    mail[t] = -1;
+                }
+            });
+        result = "all-rounds-blocked";
+        buf.entries = 0;
+        buf.max_inside = 0;
+        buf.entries_after_park = 0;
+        buf.release = false;
+        buf.parked = false;
+        buf.park_mode = park_mode;
+        int cur = seq[0] - '0';
+        buf.park_tid = cur;
+        mail[cur] = 2;
+        for (int w = 0; w < 50000 && !buf.parked; w++)
+            std::this_thread::sleep_for(std::chrono::milliseconds(1));
+        for (std::size_t j = 1; j < seq.size() && result == "all-rounds-blocked"; j++)
+        {
+            int nxt = seq[j] - '0';
+            bool a_parked = buf.parked;
+            mail[nxt] = (j % 2) ? 2 : 4;
+            bool entered = false;
+            for (int w = 0; w < 120; w++)
+            {
+                if (buf.entries_after_park.load() > 0 || buf.max_inside.load() > 1)
+                {
+                    entered = true;
+                    break;
+                }
+                std::this_thread::sleep_for(std::chrono::milliseconds(1));
+            }
+            if (!a_parked || entered)
+            {
+                result = "round" + std::to_string(j) + ":parked=" + (a_parked ? "1" : "0") + " blocked=" +
+                         (entered ? "0" : "1") + " concurrent=" + (buf.max_inside.load() > 1 ? "1" : "0");
+                break;
+            }
+            // hand over: the waiting thread becomes the parked one
+            buf.park_tid = nxt;
+            buf.entries_after_park = 0;
+            buf.parked = false;
+            buf.release_gen = buf.park_gen.load();
+            for (int w = 0; w < 50000 && (mail[cur] >= 0 || !buf.parked); w++)
+                std::this_thread::sleep_for(std::chrono::milliseconds(1));
+            if (buf.max_inside.load() > 1)
+                result = "round" + std::to_string(j) + ":concurrent=1";
+            cur = nxt;
+        }
+        buf.park_mode = 0;
+        buf.release = true;
+        for (int w = 0; w < 50000 && (mail[0] >= 0 || mail[1] >= 0 || mail[2] >= 0); w++)
+            std::this_thread::sleep_for(std::chrono::milliseconds(1));
+        quit = true;
+        for (auto& t : ts)
+            t.join();
+        buf.park_tid = -1;
+    }
+    else if (f.at(0) == "turnseq")
+    {
+        // a sequence of turnstiles among three long-lived threads: in round k thread <parker> is parked inside the
+        // stream buffer and thread <intruder> must block before entering.  What the sink remembers about who wrote
+        // last, who waited, who entered while somebody else was inside - whatever it is - must not let anybody in.
+        std::string rounds = f.at(2);
+        int park_mode = f.at(3) == "s" ? 2 : 1;
+        std::atomic<int> mail[3];
+        std::atomic<bool> quit{ false };
+        for (auto& m : mail)
+            m = -1;
+        std::vector<std::thread> ts;
+        for (int t = 0; t < 3; t++)
+            ts.emplace_back([&, t] {
+                int k = 0;
+                while (!quit)
+                {
+                    int sev = mail[t].load();
+                    if (sev < 0)
+                    {
+                        std::this_thread::sleep_for(std::chrono::microseconds(200));
+                        continue;
+                    }
+                    log(sev, record_text(t, k++, sev));
+                    mail[t] = -1;
+                }
+            });
+        result = "all-rounds-blocked";
+        int round = 0;
+        for (std::size_t i = 0; i + 1 < rounds.size() && result == "all-rounds-blocked"; i += 3, round++)
+        {
+            int parker = rounds[i] - '0', intruder = rounds[i + 1] - '0';
+            buf.entries = 0;
+            buf.max_inside = 0;
+            buf.entries_after_park = 0;
+            buf.release = false;
+            buf.parked = false;
+            buf.park_mode = park_mode;
+            mail[parker] = 2;
+            for (int w = 0; w < 50000 && !buf.parked; w++)
+                std::this_thread::sleep_for(std::chrono::milliseconds(1));
+            bool a_parked = buf.parked;
+            mail[intruder] = (round % 2) ? 5 : 2;
+            bool entered = false;
+            for (int w = 0; w < 150; w++)
+            {
+                if (buf.entries_after_park.load() > 0 || buf.max_inside.load() > 1)
+                {
+                    entered = true;
+                    break;
+                }
+                std::this_thread::sleep_for(std::chrono::milliseconds(1));
+            }
+            buf.park_mode = 0;
+            buf.release = true;
+            for (int w = 0; w < 50000 && (mail[parker] >= 0 || mail[intruder] >= 0); w++)
+                std::this_thread::sleep_for(std::chrono::milliseconds(1));
+            if (!a_parked || entered || buf.max_inside.load() > 1)
+                result = "round" + std::to_string(round) + ":parked=" + (a_parked ? "1" : "0") + " blocked=" +
+                         (entered ? "0" : "1") + " concurrent=" + (buf.max_inside.load() > 1 ? "1" : "0");
+        }
+        quit = true;
+        for (auto& t : ts)
+            t.join();
     }
     else if (heavy)
     {
